@@ -21,6 +21,7 @@ type c10Cfg struct {
 	MaxL    int   `json:"max_len"`
 	GapMs   int64 `json:"gap_ms,omitempty"` // the second half of the arrivals (and the sentinel) lies this much later in event time
 	Base    int64 `json:"epoch_base_ms,omitempty"`   // timestamps of a present-day epoch (Base + t - 10000), handed over as float64
+	Alpha   []int64 `json:"alphabet_ms,omitempty"` // a reduced timestamp alphabet (longer two-key sequences)
 	Block   bool  `json:"block_slow_consumer,omitempty"` // strategy block without timeout, window output buffer of 1, sink taking 20 ms per batch
 }
 
@@ -49,11 +50,20 @@ func c10Configs(tier string) []c10Cfg {
 		}
 	}
 	out = append(out, c10Cfg{Timeout: 2000, OOOMs: 0, Keys: 2, MaxL: maxL - 1, Block: true})
+	// two keys, four arrivals, out-of-order arrivals of one key inside the tolerance while the other key's session is open
+	out = append(out, c10Cfg{Timeout: 2000, OOOMs: 3000, Keys: 2, MaxL: 4, Alpha: []int64{12500, 15000, 16000, 17500}})
 	// present-day epoch, float64 timestamps (what a JSON decoder hands over); tolerance not a multiple of 4 ms
 	out = append(out, c10Cfg{Timeout: 2000, OOOMs: 0, Keys: 1, MaxL: maxL, Base: 1700000000251}, c10Cfg{Timeout: 2000, OOOMs: 2501, Keys: 2, MaxL: maxL - 1, Base: 1700000000251})
 	// a source that stays silent for more than a day of event time (all of it far behind the clock)
 	out = append(out, c10Cfg{Timeout: 2000, OOOMs: 0, Keys: 2, MaxL: maxL - 1, GapMs: 36 * 3600 * 1000}, c10Cfg{Timeout: 2000, OOOMs: 3000, Keys: 1, MaxL: maxL, GapMs: 36 * 3600 * 1000})
 	return out
+}
+
+func (c c10Cfg) times() []int64 {
+	if len(c.Alpha) > 0 {
+		return c.Alpha
+	}
+	return c10Times
 }
 
 func c10SQL(c c10Cfg) string {
@@ -78,7 +88,7 @@ func c10Events(c c10Cfg, tsIdx []int, keyBits int) []ref.Event {
 		if c.Keys > 1 && keyBits>>uint(i)&1 == 1 {
 			k = "b"
 		}
-		ts := c10Times[x]
+		ts := c.times()[x]
 		if c.Base > 0 {
 			ts += c.Base - 10000
 		}
@@ -318,7 +328,7 @@ func (c10) Run(u fw.Unit) fw.Result {
 	sql := c10SQL(c)
 	idx := 0
 	for L := 1; L <= c.MaxL; L++ {
-		sequences(L, len(c10Times), func(seq []int) {
+		sequences(L, len(c.times()), func(seq []int) {
 			nk := 1
 			if c.Keys > 1 {
 				nk = 1 << uint(L-1)
